@@ -70,6 +70,7 @@ def run(ctx, obs):
               'data.computations.average_dataset_by'):
         desc_normalised(ctx, obs, q)
     merge(ctx, obs)
+    merge_uniformity(ctx, obs)
     for q in (D + 'TemporalDataset.time_as_observations', D + 'TemporalDataset.bin_time', D + 'Dataset.split_obs',
               D + 'Dataset.split_channel', D + 'TemporalDataset.split_obs', D + 'TemporalDataset.split_channel',
               D + 'TemporalDataset.split_time', 'data.computations.average_dataset_by', D + 'Dataset.get_measurements_tensor'):
@@ -110,6 +111,36 @@ def merge(ctx, obs, rule='MERGE'):
             for x in inner:
                 obs.check(ast.dump(x.slice) == ast.dump(key), rule, q, 'each obs descriptor is concatenated under its own key',
                           f'`{norm(st)[:90]}` stores key `{norm(key)}` from descriptor `{norm(x.slice)}`', '', where(prog, f, st))
+
+
+def merge_uniformity(ctx, obs, rule='MERGE'):
+    """merge_datasets keeps a dataset-level descriptor at dataset level only if ALL parts agree on it; otherwise it becomes a
+    per-row descriptor.  The test has to look at every part (a set / np.unique of the values, or all(...)); comparing two chosen
+    parts (first vs last) lets a differing middle part inherit the first part's value."""
+    prog = ctx.prog
+    q = 'data.ops.merge_datasets'
+    f = prog.func(q)
+    r = ctx.dep.result(q)
+    inl = Inliner(r, None, tuple(f.params))
+    guards = [g for g in ast.walk(f.node) if isinstance(g, ast.If) and g.orelse
+              and any(isinstance(c, ast.Call) and isinstance(c.func, ast.Name) and c.func.id == 'repeat' for s_ in g.orelse for c in ast.walk(s_))]
+    if not guards:
+        obs.unk(rule, q, 'a descriptor stays at dataset level only if all parts agree', 'guard not found', where(prog, f, f.node))
+        return
+    for g in guards:
+        t = inl.inline(g.test)
+        con = 'a descriptor stays at dataset level only if all parts agree on its value'
+        all_parts = any(isinstance(c, (ast.SetComp, ast.Set)) or (isinstance(c, ast.Call) and (getattr(c.func, 'id', getattr(c.func, 'attr', ''))
+                                                                                          in ('set', 'unique', 'all'))) for c in ast.walk(t))
+        two_parts = isinstance(t, ast.Compare) and len(t.ops) == 1 and isinstance(t.ops[0], ast.Eq) \
+            and all(isinstance(x, ast.Subscript) and isinstance(x.slice, (ast.Constant, ast.UnaryOp)) for x in (t.left, t.comparators[0]))
+        if all_parts:
+            obs.ok(rule, q, con, f'`{norm(g.test)[:60]}`', where(prog, f, g))
+        elif two_parts:
+            obs.bad(rule, q, con, f'`{norm(g.test)}` compares two chosen parts only: with three or more parts (A, B, A) the differing part '
+                    f'silently gets the first part\'s value', where(prog, f, g))
+        else:
+            obs.unk(rule, q, con, f'`{norm(g.test)[:60]}` not recognised', where(prog, f, g))
 
 
 def siblings(ctx, obs, rule='SIB'):
